@@ -256,6 +256,13 @@ def histories(seed, tier, extra_packets=()):
         out.append(scen(hp, [{"op": "read_question"}, setter, {"op": "read_question"}]))
         out.append(scen(hp, [setter, {"op": "read_question"}, {"op": "recompute"}, {"op": "read_question"}]))
         out.append(scen(hp, [{"op": "read_question"}, setter, op_insert("AR", 0), {"op": "read_question"}]))
+    # arguments equal to the current value up to letter case: the question / an owner renamed to its own name in
+    # another case, on a pointer-free object whose question cache is filled, then read back raw
+    for b, qn, own in ((bases[0], name("Q", "eX"), name("q", "EX")), (bases[1], name("Q", "EX"), name("Q", "Ex"))):
+        for sec, nm in (("Q", qn), ("AN", own)):
+            out.append(scen(b, [{"op": "recompute"}, {"op": "read_question"}, cursor_op(sec, False, 0, [("set_raw_name", nm), ("next", [])]), {"op": "read_question"}]))
+            out.append(scen(b, [{"op": "read_question"}, cursor_op(sec, False, 0, [("uncompress", []), ("set_raw_name", nm)]), {"op": "read_question"},
+                                {"op": "rename", "target": name("EX"), "source": name("ex"), "suffix": True}, {"op": "read_question"}]))
     # size limit: fill up with big records from every starting size
     big = [i for i, (t, r) in enumerate(record_menu()) if t.startswith("big.")][0]
     for b in bases[:3]:
@@ -315,6 +322,9 @@ def walk_packets(maxn, rnd=None):
                     extra_ar = [] if sec == "AR" else rr(name("z"), 1, 7, [7, 7, 7, 7])
                     pkt = hdr(9, 0x8180, 1, an, ns, ar + (0 if sec == "AR" else 1)) + q + recs + extra_ar
                     out.append((pkt, sec, ids, op))
+                    if sec == "AR" and n >= 1:
+                        # the same additional section in a query (QR clear: no answer or authority records allowed)
+                        out.append((hdr(9, 0x0100, 1, 0, 0, ar) + q + recs, sec, ids, op))
     return out
 
 
@@ -416,6 +426,20 @@ def size_limit_histories():
             n += 1
             pkt = hdr(13, 0x8180, 1, n, 0, 0) + q + recs
             out.append(scen(pkt, [ins, {"op": "read_question"}, op_insert("AR", 3)]))
+            # the record that crosses the limit is an OPT pseudo-record (its summary must not outlive a refusal)
+            out.append(scen(pkt, [op_insert_raw("AR", 0), {"op": "read_question"}, ins]))
+            # the packet already carries an OPT record advertising a payload below / at / above the limit: the limit
+            # of insert_rr is the uncompressed size, whatever the peer advertises
+            for payload in (512, 8192, 8193, 16384, 65535):
+                o11 = opt(payload=payload)
+                # keep the pointer-free size at `target` by shortening the filler by the OPT record's 11 bytes
+                recs2 = recs[:-11] if not compressed or True else recs
+                pkt2 = hdr(13, 0x8180, 1, n, 0, 1) + q + recs2
+                # fix the RDLENGTH of the (shortened) filler: it is the last record of `recs2`
+                fill2 = fill - 11
+                if fill2 > 0:
+                    pkt2 = hdr(13, 0x8180, 1, n, 0, 1) + q + recs[: len(recs) - len(rr(owner_wire, 16, 3, [97] * fill))] + rr(owner_wire, 16, 3, [97] * fill2) + o11
+                    out.append(scen(pkt2, [ins, {"op": "read_question"}, op_insert("NS", 0), op_insert("AR", 3)]))
     for total in (9000, 20000, 60000):
         recs, n = [], 0
         while 12 + len(q) + len(recs) + 260 < total:
